@@ -378,7 +378,9 @@ C09_UNITS = [
 ] + _pick("C05", ("co3",), "mutex_") + _pick("C10", ("cancel3", "mix3"), "sem_") + _pick("C11", ("cancel3", "deep_cancel"), "cv_") \
   + _pick("C12", ("clean3",), "rw_") + _pick("C06", ("mpsc_cancel",), "chan_") + _pick("C14", ("cancel_owner",), "scope_") \
   + _pick("C13", ("mutex_cancel_in_guard", "mutex_panic_cancel_pending"), "poison_") \
-  + _pick("C15", ("reuse_park_cancel", "reuse_sleep_cancel", "reuse_select_cancel"), "innocent_")
+  + _pick("C15", ("reuse_park_cancel", "reuse_sleep_cancel", "reuse_select_cancel", "reuse_sleep_dropyield_cancel",
+                  # a cancel racing the unpark that chose this waiter, then an innocent coroutine on the same stack
+                  "cancel_vs_unpark_then_innocent"), "innocent_")
 PROPS["C09"] = dict(assumptions=["socket read/accept/connect cancellation is decided with C18"], units=C09_UNITS)
 
 # ---------------------------------------------------------------------------------------------
@@ -424,6 +426,11 @@ C04_UNITS = [
     qunit("spmcq_aba", "spmcq", 0, [qa("o", ["push"] * 66), qa("s1", ["pop"]), qa("s2", ["bulk"] * 4 + ["pop"] * 3)],
           n=60, prefill=2, lifo_alloc=True,
           holds=[dict(actor="s1", site="q.cas", nth=1, until_actor="o", until_site="qh.op", until_n=64)]),
+    # ABA in plain pop with the queue EMPTY at the stale CAS: the consumer claims the slot the owner is about to push
+    # (pop_index == tail.index) and has to wait for that push (found missing by seeded change C04-3)
+    qunit("spmcq_aba_pop_empty", "spmcq", 0, [qa("o", ["pop"] + ["push", "pop"] * 63 + ["push"]), qa("s1", ["pop"])],
+          n=60, prefill=1, lifo_alloc=True,
+          holds=[dict(actor="s1", site="q.cas", nth=1, until_actor="o", until_site="qh.op", until_n=128)]),
     qunit("spmcq_mid", "spmcq", 7, [qa("o", ["push", "push", "push"]), qa("s1", ["pop", "bulk"]), qa("s2", ["pop", "pop"]), qa("s3", ["bulk"])]),
 ]
 PROPS["C04"] = dict(assumptions=["sequentially consistent memory"], units=C04_UNITS)
@@ -528,6 +535,11 @@ def iounit(name, n=300, **params):
 def bulkunit(name, kind, runs=6, **params):
     return dict(name=name, scenario="io_bulk", params=dict(workers=4, kind=kind, **params),
                 quick=dict(explore=dict(n=runs)), thorough=dict(explore=dict(n=20 * runs)))
+def fxunit(name, transport, n=100):
+    return dict(name=name, scenario="fdreuse", params=dict(workers=8, transport=transport),
+                tv_gen=("spec/l3/FdReuse.tla", "spec/l3/MCFdReuse_fixed.cfg", "fdreuse"),
+                quick=dict(explore=dict(n=n), dfs=dict(max=n, pb=3)),
+                thorough=dict(explore=dict(n=10 * n), dfs=dict(max=10 * n, pb=4)))
 C17_UNITS = [
     dict(name="iowait_spec", tlc=[("spec/l3/IoWait.tla", "spec/l3/MCIoWait.cfg")]),
     dict(name="stream_spec", tlc=[("spec/l3/Stream.tla", "spec/l3/MCStream.cfg")]),
@@ -546,6 +558,13 @@ C17_UNITS = [
     bulkunit("bulk_tcp_many", "tcp", conns=12, size=120_000),
     bulkunit("dgram_udp", "udp", conns=2),
     bulkunit("dgram_unix", "udg", conns=2),
+    # the registration of a socket against the life cycle of its fd number (F26): counter-example on the pinned drop order
+    # of CoIo, repaired order verified; the real drop / create / read race explored for CoIo (unix) and TcpStream, every
+    # explored execution validated by TLC against the repaired model
+    dict(name="fdreuse_spec", tlc=[("spec/l3/FdReuse.tla", "spec/l3/MCFdReuse.cfg"), ("spec/l3/FdReuse.tla", "spec/l3/MCFdReuse_fixed.cfg")],
+         tlc_expect_error="LiveStaysRegistered is violated|NoMissedReadiness is violated"),
+    fxunit("fdreuse_unix", "unix"),
+    fxunit("fdreuse_tcp", "tcp"),
 ]
 PROPS["C17"] = dict(assumptions=["the kernel delivers socket data and edge-triggered epoll events as documented"], units=C17_UNITS)
 C18_UNITS = [
